@@ -56,6 +56,11 @@ func runC06(c *Ctx) {
 	c06Not(c, T, parms)
 	c06Dispatch(c, barms, parms)
 	nullDefinition(c, "C06.null-definition")
+	// "evaluates only the selected branch" of a chained `a ? b : c ? d : e` presupposes the grouping a ? b : (c ? d : e):
+	// the parser's layering of `?:` (shared with C02)
+	if ro := c.needRoles("C06.roles"); ro != nil {
+		c02Layers(c, ro, "C06.conditional-parsing")
+	}
 }
 
 func truthArg(f *ssa.Function) *ssa.Parameter {
